@@ -247,7 +247,11 @@ def build(spec, plain=False):
         m.byname[wp.name] = wp
     for i, wps in enumerate(spec.get("workplaces", [])):
         for src in wps.get("inputs", []):
-            m.workplaces[i].append_input_workplace(m.workplaces[src])
+            if wps.get("wire_inputs") == "one-sided":
+                # declared on the downstream workplace only (as the constructor keyword does)
+                m.workplaces[i].input_workplace_list.append(m.workplaces[src])
+            else:
+                m.workplaces[i].append_input_workplace(m.workplaces[src])
     order = spec.get("order") or list(range(len(m.tasks)))
     wf = BaseWorkflow([m.tasks[i] for i in order])
     m.project = BaseProject(
